@@ -67,20 +67,24 @@ Section C04.
   Proof. exact (restore_same H PBKDF2 Hwf). Qed.
 
   (* importing an exported keystore with the passphrase recovers the same entropy and seed; with
-     a passphrase whose scrypt key differs nothing is recovered; the external counter becomes
+     a passphrase whose scrypt key differs, or one that ends with a zero byte, nothing is recovered; the external counter becomes
      max(1, exported) *)
   Theorem C04_export_import : forall p salt cke n1 n2 e ex inn m sd,
+    ends_nul p = false ->
     create_seed H PBKDF2 e p = Bip39.Ok (m, sd) ->
     import_keystore_seed H PBKDF2 kdf open_box (persist_entropy kdf seal p salt cke n1 n2 e ex inn) p
       = Some (Bip39.Ok (e, sd)) /\
     (forall p', kdf p' salt <> kdf p salt ->
        import_keystore_seed H PBKDF2 kdf open_box (persist_entropy kdf seal p salt cke n1 n2 e ex inn) p' = None) /\
+    (forall p', ends_nul p' = true ->
+       import_keystore_seed H PBKDF2 kdf open_box (persist_entropy kdf seal p salt cke n1 n2 e ex inn) p' = None) /\
     (0 <= ex -> import_ex_counter (persist_entropy kdf seal p salt cke n1 n2 e ex inn) = Z.max 1 ex).
   Proof.
-    exact (fun p salt cke n1 n2 e ex inn m sd C =>
-             conj (export_import_seed H PBKDF2 kdf seal open_box box p salt cke n1 n2 e ex inn m sd C)
+    exact (fun p salt cke n1 n2 e ex inn m sd Nn C =>
+             conj (export_import_seed H PBKDF2 kdf seal open_box box p salt cke n1 n2 e ex inn m sd Nn C)
             (conj (fun p' N => import_wrong_pass H PBKDF2 kdf seal open_box box p p' salt cke n1 n2 e ex inn N)
-                  (import_counter (persist_entropy kdf seal p salt cke n1 n2 e ex inn)))).
+            (conj (fun p' N => import_nul_refused H PBKDF2 kdf open_box (persist_entropy kdf seal p salt cke n1 n2 e ex inn) p' N)
+                  (import_counter (persist_entropy kdf seal p salt cke n1 n2 e ex inn))))).
   Qed.
 
   (* restart and public-passphrase change: a stored public key row gives back the script hash it
